@@ -24,7 +24,9 @@ class C08(Prop):
                 "NV.C08.lookup_unique_live_reachable", "NV.C08.inventories_forest", "NV.C08.destructed_never_visible",
                 "NV.C08.destructed_never_called", "NV.C08.destructed_never_moved_into",
                 "NV.C08.remove_hash_precondition", "NV.C08.remove_hash_absent_drops_chain", "NV.C08.unlink_preserves",
-                "NV.C08.no_dangling", "NV.C08.superWalk_clear", "NV.C08.acyclic_redirect", "NV.C08.init_inv"]
+                "NV.C08.no_dangling", "NV.C08.task_no_crash", "NV.C08.no_crash", "NV.C08.init_only_adjacent",
+                "NV.C08.command_giver_valid", "NV.C08.command_target_live", "NV.C08.destructed_drops_sentences",
+                "NV.C08.exec_good", "NV.C08.superWalk_clear", "NV.C08.acyclic_redirect", "NV.C08.init_inv"]
     consts = [("oDestructed", "O_DESTRUCTED"), ("oEnableCommands", "O_ENABLE_COMMANDS"), ("oClone", "O_CLONE")]
     const_headers = ["lpc/object.h"]
     quick_n = 700
@@ -45,8 +47,8 @@ class C08(Prop):
                   "the Lean specification oracle judges every implementation trace")
     level_note = ("trusted: Lean kernel; extract.py + props/c08.py gen_extra (regex transcription of T[], ObjHash, "
                   "hash_living_name); the correspondence harness (differential, only the generated histories); hooks are oracle "
-                  "scripts; the theorems do not include crash-freedom of the pointer walks (modelled as explicit outcomes, "
-                  "never observed) nor the oracle-level top theorem judge(model trace) = []")
+                  "scripts; crash freedom is proved (no_crash); termination of the super walk is not ("
+                  "never observed to be `hang`) nor the string-level top theorem judge(model trace) = []")
     rule = ("cases = corpus + known-finding inputs + boundary list (failing moves, self-destructing create, destruct during the "
             "init fan-out, move_or_destruct hooks that move / destruct / re-enter, living names, reference read-back, a 220 "
             "object population) + seeded random histories of load/clone/move/destruct/enable_commands/set_living_name/"
@@ -54,11 +56,12 @@ class C08(Prop):
             "and (every 40th case) 100..260 objects on a 16 bucket name table; walker after every step, snapshot + LPC probe "
             "after every step (small) or periodically (large); a case is non-trivial when its trace has >= 2 lines; "
             "distinct = distinct canonical implementation trace")
-    not_covered = ["add_action / command() sentences and command_giver are not modelled (user_parser skips sentences of destructed objects: by reading only)",
+    not_covered = ["add_action flags (V_SHORT / V_NOSPACE), function-pointer actions, action functions returning 0 (illegal_sentence_action), remove_action, notify_fail",
                    "virtual objects (master compile_object), the master / simul_efun reload path of destruct_object, shadows, swapping, sockets",
                    "catch() inside hooks (error_handler resets restrict_destruct even for caught errors)",
                    "objects(filter) with a filter that destructs objects walks next_all into obj_list_destruct (by reading; not generated)",
-                   "crash-freedom (no dereference of a released structure, termination of the super walk) is modelled but not proved",
+                   "termination of move_object's super walk (outcome `hang`) is not proved (crash freedom is: no_crash)",
+                   "the string-level top theorem judge(model trace) = [] is not proved; its semantic clauses are (reachable_inv, no_crash, init_only_adjacent, destructed_never_*)",
                    "call_out / heart_beat / input_to references to destructed objects (C10, C11)"]
 
     # ---- translator ---------------------------------------------------------
@@ -133,6 +136,10 @@ class C08(Prop):
         mk("mod-hook-moves-into-dying", """t ld,b0\nt cl,b0\nt cl,b0\nt cl,b0\nt mv,o3,o2\nscript o3 mod mv,o4,o2;mv,o5,o2\nt de,o2\n""" + tail)
         mk("living-names", """t ld,b0\nt cl,b0\nt cl,b0\nt ec,o2\nt ln,o2,la\nt ln,o3,la\nt ec,o3\nt fl,la\nt ln,o4,lb\nt fl,lb\nt ec,o4\nt fl,lb
             snap\nprobe\nt ln,o2,lb\nt dc,o3\nt fl,la\nsnap\nprobe\nt de,o2\nt fl,lb\nt de,o4\nt fl,lb\n""" + tail)
+        mk("sentences-move-destruct", """script o3 init aa,o3,va\nscript o4 init aa,o4,va;aa,o4,vb\nscript o4 act mv,o5,o6\nscript o3 act de,o3
+            t ld,b0\nt cl,b0\nt cl,b0\nt cl,b0\nt ld,b1\nt ec,o5\nt mv,o3,o2\nt mv,o4,o2\nt mv,o5,o2\nsnap\nt cmd,o5,va\nt cmd,o5,vb\nsnap
+            t mv,o5,o2\nsnap\nt cmd,o5,va\nsnap\nt cmd,o5,va\nt cmd,o5,vc\nt dc,o5\nt cmd,o5,vb\nt ec,o5\nt aa,o2,vc\nt aa,o6,vc\nt cmd,o5,vc\nt de,o4\nt cmd,o5,vb\n""" + tail)
+        mk("sentence-of-destructed-lingers", """t ld,b0\nt cl,b0\nt cl,b0\nt mv,o3,o2\nt mv,o4,o2\nt ec,o3\nt aa,o4,va\nsnap\nt dc,o3\nt de,o4\nsnap\nt ec,o3\nt cmd,o3,va\ngc\nt cmd,o3,va\nt de,o3\n""" + tail)
         mk("references-read-zero", """t ld,b0\nt cl,b0\nt kp,o3\nt rd\nscript o3 create kp,o2;rd\nt de,o3\nt rd\nt kp,o3\nt mv,o3,o2\nt mv,o2,o3\nt ec,o3\nt ln,o3,x\nt de,o3\ngc\nt rd\n""" + tail)
         mk("reload-after-destruct", "t ld,b0\nt cl,b0\nt de,o2\nt fo,b0\nt ld,b0\nt fo,b0\nt cl,b0\nt fo,b0#1\nt fo,b0#2\ngc\nt de,o4\nt ld,b0\n" + tail)
         mk("find-moves-to-front", "t ld,b0\nt ld,b1\nt ld,b2\nt ld,b3\nt ld,b4\nt ld,b5\nt ld,b6\nt ld,b7\nsnap\nt fo,b0\nt fo,b3\nt fo,b5\nsnap\nt de,o4\nt de,o9\n" + tail)
@@ -145,9 +152,9 @@ class C08(Prop):
         return B
 
     OPS = [("ld", 9), ("cl", 14), ("mv", 28), ("de", 9), ("ec", 14), ("dc", 2), ("ln", 4), ("fo", 5), ("fl", 3),
-           ("kp", 3), ("rd", 2), ("err", 1)]
+           ("kp", 3), ("rd", 2), ("err", 1), ("aa", 9), ("cmd", 8)]
     HOPS = [("ld", 5), ("cl", 8), ("mv", 24), ("de", 14), ("ec", 5), ("dc", 1), ("ln", 2), ("fo", 2), ("fl", 1),
-            ("kp", 2), ("rd", 2), ("err", 2), ("mvarg", 6), ("nop", 2)]
+            ("kp", 2), ("rd", 2), ("err", 2), ("mvarg", 6), ("nop", 2), ("aa", 10), ("cmd", 3)]
 
     def gen_op(self, rng, st, table, self_id=None):
         k = rng.weighted(table)
@@ -170,6 +177,16 @@ class C08(Prop):
             return "mv,%s,%s" % (oid(), oid())
         if k in ("de", "ec", "dc", "kp"):
             return "%s,%s" % (k, oid())
+        if k == "aa":
+            return "aa,%s,%s" % (oid(), rng.choice(["va", "vb", "vc"]))
+        if k == "cmd":
+            # mostly the object that was command-enabled last (it is the command giver add_action serves)
+            who = "o%d" % st["lastec"] if st.get("lastec") and rng.chance(2, 3) else oid()
+            return "cmd,%s,%s" % (who, rng.choice(["va", "vb", "vc"]))
+        if k == "ec":
+            o = oid()
+            st["lastec"] = int(o[1:])
+            return "ec," + o
         if k == "ln":
             return "ln,%s,%s" % (oid(), rng.choice(["la", "lb", "lc"]))
         if k == "fl":
@@ -204,21 +221,31 @@ class C08(Prop):
             # scripts for hooks that may fire during this step
             while nscripts < 14 and rng.chance(2, 5):
                 nscripts += 1
-                hk = rng.weighted([("create", 3), ("init", 5), ("mod", 5)])
+                hk = rng.weighted([("create", 3), ("init", 6), ("mod", 5), ("act", 3)])
                 if hk == "create":
                     target = st["est"] + 1 + rng.below(2)
                 else:
                     target = rng.range(2, max(2, st["est"] + 1))
                 ops = [self.gen_op(rng, st, self.HOPS, target) for _ in range(rng.range(1, 3))]
                 body.append("script o%d %s %s" % (target, hk, ";".join(ops)))
-            if rng.chance(1, 12):
+            if rng.chance(1, 10) and st["top"] >= 3:
+                # a command that (mostly) reaches an action: enable x, let y offer a verb, x issues it (maybe later)
+                x, y = rng.range(2, st["top"] + 1), rng.range(2, st["top"] + 1)
+                v = rng.choice(["va", "vb", "vc"])
+                body += ["t ec,o%d" % x, "t aa,o%d,%s" % (y, v)]
+                st["lastec"] = x
+                if rng.chance(1, 2):
+                    body.append("t " + self.gen_op(rng, st, self.OPS))
+                body.append("t cmd,o%d,%s" % (x, v))
+            elif rng.chance(1, 12):
                 body.append("gc")
             else:
                 op = self.gen_op(rng, st, self.OPS)
                 body.append("t " + op)
                 if op[:2] in ("ld", "cl") and rng.chance(1, 3):
                     # command-enable the (probable) new object so that later moves fan out init() calls
-                    body.append("t ec,o%d" % rng.range(max(2, st["top"] - 1), st["top"] + 1))
+                    st["lastec"] = rng.range(max(2, st["top"] - 1), st["top"] + 1)
+                    body.append("t ec,o%d" % st["lastec"])
             if every:
                 body += ["snap", "probe"]
             elif rng.chance(1, 6):
@@ -235,7 +262,7 @@ class C08(Prop):
 
     def histogram(self, cases, impl):
         h = {"objects_created": 0, "moves_ok": 0, "moves_refused": 0, "destructs": 0, "hooks_create": 0, "hooks_init": 0,
-             "hooks_mod": 0, "errors": 0, "gone_reads": 0, "snapshots": 0, "probes": 0, "max_population": 0, "scripts": 0}
+             "hooks_mod": 0, "hooks_act": 0, "commands_hit": 0, "commands_miss": 0, "add_actions": 0, "errors": 0, "gone_reads": 0, "snapshots": 0, "probes": 0, "max_population": 0, "scripts": 0}
         for c in cases:
             pop = 0
             for l in impl.get(c.id, []):
@@ -257,6 +284,10 @@ class C08(Prop):
                         h["moves_ok"] += 1
                     elif t[1] == "de" and t[-1] == "ok":
                         h["destructs"] += 1
+                    elif t[1] == "cmd" and t[-1] in ("0", "1"):
+                        h["commands_hit" if t[-1] == "1" else "commands_miss"] += 1
+                    elif t[1] == "aa" and t[-1] == "ok":
+                        h["add_actions"] += 1
                     if t[-1] == "!gone":
                         h["gone_reads"] += 1
                 elif t[0] == "S" and len(t) > 1 and t[1] == "ol":
